@@ -102,3 +102,19 @@ V('C12', 'tuple-id-without-names', 'edb/server/compiler/sertypes.py', 'edb.serve
         t.get_schema_name(), subtypes)''', 'C12.R6', '_describe_tuple:list=element_names')
 V('C12', 'lint-castable-args-swapped', 'edb/schema/casts.py', 'edb.schema.casts.is_implicitly_castable',
   'return get_implicit_cast_distance(schema, source, target) >= 0', 'return get_implicit_cast_distance(schema, target, source) >= 0', 'C12.L', 'slips:argument-alignment')
+V('C12', 'tuple-nonpolymorphic-collapses-element', 'edb/schema/types.py', 'edb.schema.types.Tuple._to_nonpolymorphic',
+  '                schema, nst = st.to_nonpolymorphic(schema, concrete_type)\n', '                nst = concrete_type\n', 'C12.R9', 'Tuple._to_nonpolymorphic:recurses')
+V('C12', 'revert-array-nonpolymorphic-fix', 'edb/schema/types.py', 'edb.schema.types.Array._to_nonpolymorphic',
+  '        schema, newst = st.to_nonpolymorphic(schema, concrete_type)\n', '''        if isinstance(st, (Range, MultiRange)):
+            schema, newst = st.to_nonpolymorphic(schema, concrete_type)
+        else:
+            newst = concrete_type
+''', 'C12.R9', 'Array._to_nonpolymorphic:recurses')
+V('C12', 'tuple-cast-keeps-source-names', 'edb/edgeql/compiler/casts.py', 'edb.edgeql.compiler.casts._cast_tuple',
+  '''            if ctx.collection_cast_info is not None:
+                ctx.collection_cast_info.path_elements.pop()
+
+        elements.append(irast.TupleElement(name=new_el_name, val=val))''', '''            if ctx.collection_cast_info is not None:
+                ctx.collection_cast_info.path_elements.pop()
+
+        elements.append(irast.TupleElement(name=n, val=val))''', 'C12.R9', '_cast_tuple:tuple@')
